@@ -121,15 +121,57 @@ pub fn sop_label(o: &SOp) -> String {
     }
 }
 
+/// Parses a label written by `sop_label` (any operation, whether or not some alphabet has it).
 pub fn sop_parse(s: &str, all: &[SOp]) -> SOp {
     if let Some(o) = all.iter().find(|o| sop_label(o) == s) {
         return o.clone();
     }
-    // block steps computed from a state (maturity sweep): advance(<n>ns)
-    if let Some(n) = s.strip_prefix("advance(").and_then(|r| r.strip_suffix("ns)")).and_then(|n| n.parse::<u64>().ok()) {
-        return SOp::AdvanceNanos { nanos: n };
+    let bad = || -> ! { machinery_error(&format!("unknown staking op {}", s)) };
+    let (name, rest) = match s.split_once('(') {
+        Some((n, r)) => (n, r.strip_suffix(')').unwrap_or(r)),
+        None => bad(),
+    };
+    let args: Vec<&str> = rest.split(", ").collect();
+    let idx = |a: &str, p: char| -> u8 { a.strip_prefix(p).and_then(|x| x.parse::<u8>().ok()).map(|x| x.wrapping_sub(1)).unwrap_or_else(|| bad()) };
+    let amount = |a: &str| -> (u128, u8) {
+        let (n, foreign) = match a.strip_suffix(" foreign") {
+            Some(n) => (n, 1u8),
+            None => (a, 0u8),
+        };
+        (n.parse::<u128>().unwrap_or_else(|_| bad()), foreign)
+    };
+    let op = match (name, args.len()) {
+        ("delegate", 3) => {
+            let (amt, denom) = amount(args[2]);
+            SOp::Delegate { d: idx(args[0], 'd'), v: idx(args[1], 'v'), amt, denom }
+        }
+        ("undelegate", 3) => {
+            let (amt, denom) = amount(args[2]);
+            SOp::Undelegate { d: idx(args[0], 'd'), v: idx(args[1], 'v'), amt, denom }
+        }
+        ("redelegate", 3) => {
+            let (src, dst) = args[1].split_once("->").unwrap_or_else(|| bad());
+            let (amt, foreign) = amount(args[2]);
+            if foreign == 1 {
+                SOp::RedelegateForeign { d: idx(args[0], 'd'), src: idx(src, 'v'), dst: idx(dst, 'v'), amt }
+            } else {
+                SOp::Redelegate { d: idx(args[0], 'd'), src: idx(src, 'v'), dst: idx(dst, 'v'), amt }
+            }
+        }
+        ("withdraw", 2) => SOp::Withdraw { d: idx(args[0], 'd'), v: idx(args[1], 'v') },
+        ("set_withdraw_address", 2) => SOp::SetWithdraw { d: idx(args[0], 'd'), to: if args[1] == "self" { 9 } else { args[1].strip_prefix('w').and_then(|x| x.parse().ok()).unwrap_or_else(|| bad()) } },
+        ("slash", 2) => SOp::Slash { v: idx(args[0], 'v'), pct: args[1].strip_suffix('%').and_then(|x| x.parse().ok()).unwrap_or_else(|| bad()) },
+        ("advance", 1) => match args[0].strip_suffix("ns") {
+            Some(n) => SOp::AdvanceNanos { nanos: n.parse().unwrap_or_else(|_| bad()) },
+            None => SOp::Advance { secs: args[0].strip_suffix('s').and_then(|x| x.parse().ok()).unwrap_or_else(|| bad()) },
+        },
+        ("set_block", 1) => SOp::SetBlock { secs: args[0].strip_prefix('+').and_then(|x| x.strip_suffix('s')).and_then(|x| x.parse().ok()).unwrap_or_else(|| bad()) },
+        _ => bad(),
+    };
+    if sop_label(&op) != s {
+        bad();
     }
-    machinery_error(&format!("unknown staking op {}", s))
+    op
 }
 
 pub struct Names {
@@ -604,7 +646,10 @@ pub fn step(app: &mut SApp, nm: &Names, st: &SState, op: &SOp, cfg: &Cfg, ops_al
                     report("withdraw-of-positive-reward-rejected", case("withdrawing a shown positive reward of a positive delegation must succeed", json!({"pending": pre.pending[&(*d, *v)].to_string(), "error": res.as_ref().err()})));
                 }
             } else {
-                let paid = pre.pending[&(*d, *v)];
+                // what was shown beforehand: the Delegation query's accumulated_rewards; where that
+                // query shows no delegation at all (a sub-token remainder of a slashed stake), it
+                // shows no reward figure either, and the figure of StakeKeeper::get_rewards is used
+                let paid = if pre.deleg[&(*d, *v)] > 0 { pre.pending[&(*d, *v)] } else { pre.keeper_rewards[&(*d, *v)].unwrap_or(0) };
                 let target = match h.withdraw_to.get(d) {
                     Some(w) => nm.delegators.len() + *w as usize,
                     None => *d as usize,
@@ -1381,9 +1426,21 @@ pub fn run_c15(ctx: &Ctx) -> i32 {
     ];
     let cfg2 = Cfg { check_rewards: true, prop: "C15".into(), funds: 10 * big, unbonding: UNBONDING, payout_is_home: false };
     let out2 = explore(ctx, &nm, &alpha2, ctx.tier.pick(5, 6), &cfg2, false, 2_000_000);
+    // small odd stakes halved by a slash (1.5 and 2.5 tokens) held for a century: what the fractional
+    // part of a stake earns adds up to whole tokens only over such a span
+    let alpha3 = vec![
+        SOp::Delegate { d: 0, v: 0, amt: 3, denom: 0 },
+        SOp::Delegate { d: 1, v: 0, amt: 5, denom: 0 },
+        SOp::Slash { v: 0, pct: 50 },
+        SOp::Advance { secs: 100 * YEAR },
+        SOp::Withdraw { d: 0, v: 0 },
+        SOp::Withdraw { d: 1, v: 0 },
+    ];
+    let cfg3 = Cfg { check_rewards: true, prop: "C15".into(), funds: 10, unbonding: UNBONDING, payout_is_home: false };
+    let out3 = explore(ctx, &nm, &alpha3, ctx.tier.pick(5, 6), &cfg3, false, 2_000_000);
     finish(
         ctx,
-        vec![("reward-histories", &out, alpha.iter().map(sop_label).collect::<Vec<_>>()), ("sub-second-block-times-large-stakes", &out2, alpha2.iter().map(sop_label).collect::<Vec<_>>())],
+        vec![("reward-histories", &out, alpha.iter().map(sop_label).collect::<Vec<_>>()), ("sub-second-block-times-large-stakes", &out2, alpha2.iter().map(sop_label).collect::<Vec<_>>()), ("fractional-stakes-over-a-century", &out3, alpha3.iter().map(sop_label).collect::<Vec<_>>())],
         n,
         json!({"depth": depth, "stakes": [100, 333], "time_steps_s": [YEAR / 3, YEAR / 2, YEAR, 1], "split_variants": "every advance of {1/3 y, 1/2 y, 1 y, 7 s} from every explored state, unsplit vs split into 2 and 3 block updates"}),
         {
@@ -1409,7 +1466,7 @@ pub fn replay(ctx: &Ctx, case: &Value) {
             all.push(SOp::Slash { v, pct: p });
         }
     }
-    for s in [YEAR / 3, YEAR / 2, YEAR, 7, 0, UNBONDING, YEAR / 6, YEAR / 9, YEAR / 4, 3, 2, 4, 1, 10 * YEAR] {
+    for s in [YEAR / 3, YEAR / 2, YEAR, 7, 0, 100 * YEAR, UNBONDING, YEAR / 6, YEAR / 9, YEAR / 4, 3, 2, 4, 1, 10 * YEAR] {
         all.push(SOp::Advance { secs: s });
     }
     let big = 1_000_000_000_000u128;
@@ -1434,7 +1491,12 @@ pub fn replay(ctx: &Ctx, case: &Value) {
         let op = sop_parse(o.as_str().unwrap_or(""), &all);
         let mut rep = |class: &str, detail: Value| ctx.violation(&format!("{}:{}", lower, class), detail);
         match step(&mut app, &nm, &cur, &op, &cfg, &all, &mut rep).next {
-            Some(n) => cur = n,
+            Some(n) => {
+                if std::env::var("VERIF_DEBUG").is_ok() {
+                    eprintln!("after {}: deleg={:?} pending={:?} keeper={:?} bal={:?} due={:?}", sop_label(&op), n.obs.deleg, n.obs.pending, n.obs.keeper_rewards, n.obs.bal, n.hidden.rewards.iter().map(|(k, a)| (k, a.up.as_ref().map(|x| x.show()), a.low.as_ref().map(|x| x.show()), a.withdrawn)).collect::<Vec<_>>());
+                }
+                cur = n
+            }
             None => break,
         }
     }
